@@ -240,6 +240,13 @@ Fixpoint fold_out {E S A} (f : S -> A -> outcome E S) (l : list A) (s : S) : out
   | x :: r => obind (f s x) (fun s' => fold_out f r s')
   end.
 
+(* a `for` loop with a `break` in its body: the body answers (state, stopped) *)
+Fixpoint fold_brk {E S A} (f : S -> A -> outcome E (S * bool)) (l : list A) (s : S) : outcome E S :=
+  match l with
+  | [] => Ok s
+  | x :: r => obind (f s x) (fun sb => if snd sb then Ok (fst sb) else fold_brk f r (fst sb))
+  end.
+
 (* the TCP health-check listener: the backlog of established connections — for each, whether writing
    the response and shutting the stream down succeed — and HFail for an accept error other than
    WouldBlock. accept takes the first; an empty backlog answers WouldBlock. *)
